@@ -15,7 +15,7 @@ Step == l' = l + 1
 IsEv(role, point) == l <= Len(Trace) /\ Ev.kind = "ev" /\ Ev.role = role /\ Ev.point = point
 
 CfgOf(e) == [n |-> e.n, deps |-> [i \in 1..e.n |-> ToSet(e.deps[i])], inverse |-> e.inverse,
-             limit |-> e.limit, after |-> ToSet(e.after), fails |-> ToSet(e.fails)]
+             limit |-> e.limit, after |-> ToSet(e.after), fails |-> ToSet(e.fails), ext |-> e.ext]
 
 \* a new recorded execution starts (only after the previous one has returned)
 Reset == /\ l <= Len(Trace) /\ Ev.kind = "cfg"
@@ -36,6 +36,7 @@ Logged ==
   \/ IsEv("coord", "spawned") /\ cCur = Ev.node /\ Step /\ CSpawned
   \/ IsEv("coord", "coord.recv") /\ chan # <<>> /\ Head(chan) = Ev.node /\ Step /\ CRecv
   \/ IsEv("coord", "coord.ctxdone") /\ Step /\ CDone
+  \/ IsEv("env", "cancel") /\ Step /\ CallerCancel
   \/ IsEv("w", "worker.start") /\ Ev.node \in Nodes /\ Step /\ WStart(Ev.node)
   \/ IsEv("w", "visit")        /\ Ev.node \in Nodes /\ Step /\ WReturn(Ev.node)
   \/ IsEv("w", "worker.done")  /\ Ev.node \in Nodes /\ Step /\ WDone(Ev.node)
@@ -44,7 +45,7 @@ Logged ==
 
 \* the empty configuration has no main loop to run: start "returned" so that the first line must be a cfg line
 TInit == /\ l = 1
-         /\ nn = 0 /\ deps = <<>> /\ inverse = FALSE /\ limit = 0 /\ after = {} /\ fails = {}
+         /\ nn = 0 /\ deps = <<>> /\ inverse = FALSE /\ limit = 0 /\ after = {} /\ fails = {} /\ ext = FALSE
          /\ status = <<>> /\ chan = <<>> /\ expect = 0 /\ sem = 0 /\ cancelled = FALSE /\ egErr = 0
          /\ pcM = "returned" /\ mTodo = {} /\ mCur = 0 /\ pcC = "exit" /\ cTodo = {} /\ cCur = 0
          /\ pcW = <<>> /\ visits = <<>> /\ ret = "pending"
